@@ -145,6 +145,7 @@ type sgSpyP struct {
 	inner proof.ProverContext
 	pri   []*big.Int // private random scalars in the order drawn
 	pub   []*big.Int // public random scalars in the order obtained
+	rounds [][]*big.Int // the same, per PubRand call
 	npub  int        // PubRand calls
 	puts  [][]sgCell // cells of every Put, grouped by the PubRand round they precede
 }
@@ -161,6 +162,7 @@ func (s *sgSpyP) PubRand(d ...any) error {
 	s.npub++
 	if err == nil {
 		s.pub = append(s.pub, s.e.scalarsOf(d)...)
+		s.rounds = append(s.rounds, s.e.scalarsOf(d))
 	}
 	return err
 }
@@ -185,6 +187,7 @@ type sgSpyV struct {
 	e     *sgEnv
 	inner proof.VerifierContext
 	pub   []*big.Int
+	rounds [][]*big.Int
 	npub  int
 }
 
@@ -194,6 +197,7 @@ func (s *sgSpyV) PubRand(d ...any) error {
 	s.npub++
 	if err == nil {
 		s.pub = append(s.pub, s.e.scalarsOf(d)...)
+		s.rounds = append(s.rounds, s.e.scalarsOf(d))
 	}
 	return err
 }
